@@ -114,6 +114,10 @@ var validTags = map[string]bool{
 	"repo.default": true, "cm.x": true,
 	"title.new": true, "msg.plain": true, "msg.other": true,
 	"label.new": true, "label.new2": true, "label.existing": true,
+	// "kept characters": text with characters the documented clean-up keeps (no-break and
+	// ideographic spaces, joiners, soft hyphen, line/paragraph separators, private use, BOM)
+	"title.kept": true, "title.kept-ends": true, "msg.kept": true, "msg.kept-ends": true,
+	"label.kept": true, "label.kept2": true, "label.existing-kept": true, "str.kept": true,
 	"hash.v1": true, "hash.v2": true,
 }
 
@@ -144,19 +148,19 @@ func stringCatalogue(field string, thorough bool) []string {
 	case lf == "clientmutationid":
 		return []string{"cm.x"}
 	case lf == "title":
-		c := []string{"title.new", "title.empty", "title.ctrl", "title.same"}
+		c := []string{"title.new", "title.kept", "title.kept-ends", "title.empty", "title.ctrl", "title.same"}
 		if thorough {
 			c = append(c, "title.long")
 		}
 		return c
 	case lf == "message":
-		c := []string{"msg.plain", "msg.empty", "msg.ctrl"}
+		c := []string{"msg.plain", "msg.kept", "msg.empty", "msg.ctrl"}
 		if thorough {
-			c = append(c, "msg.other", "msg.long")
+			c = append(c, "msg.kept-ends", "msg.other", "msg.long")
 		}
 		return c
 	}
-	return []string{"str.x", "str.empty", "str.ctrl"}
+	return []string{"str.x", "str.kept", "str.empty", "str.ctrl"}
 }
 
 // listCatalogue gives whole list values for list-typed fields whose element catalogue is known.
@@ -177,13 +181,13 @@ func listCatalogue(field string, elem *typeRef, thorough bool) ([]any, bool) {
 		}
 		return c, true
 	case lf == "added":
-		c := []any{l(), l("label.new"), l("label.new", "label.new2"), l("label.existing"), l("label.empty")}
+		c := []any{l(), l("label.new"), l("label.new", "label.new2"), l("label.kept"), l("label.kept", "label.kept2"), l("label.existing"), l("label.empty")}
 		if thorough {
 			c = append(c, l("label.new", "label.new"), l("label.ctrl"))
 		}
 		return c, true
 	case lf == "removed":
-		c := []any{l(), l("label.existing"), l("label.new"), l("label.existing", "label.new"), l("label.empty")}
+		c := []any{l(), l("label.existing"), l("label.existing-kept"), l("label.new"), l("label.existing", "label.new"), l("label.empty")}
 		if thorough {
 			c = append(c, l("label.existing", "label.existing"), l("label.ctrl"))
 		}
